@@ -426,17 +426,24 @@ func c01r2(rc *core.RC) {
 // `code = code.End.Next` is allowed.
 func endMarkerOnlySkipped(rc *core.RC, vm string, sw *ast.SwitchStmt) bool {
 	ok := true
+	// the program counter is the variable whose Op field the dispatch switches on, whatever it is called
+	pc := "code"
+	if tag, isSel := core.Unparen(sw.Tag).(*ast.SelectorExpr); isSel {
+		if id, isID := core.Unparen(tag.X).(*ast.Ident); isID {
+			pc = id.Name
+		}
+	}
 	ast.Inspect(sw, func(n ast.Node) bool {
 		as, isAs := n.(*ast.AssignStmt)
 		if !isAs || len(as.Lhs) != 1 || len(as.Rhs) != 1 {
 			return true
 		}
 		l, isId := as.Lhs[0].(*ast.Ident)
-		if !isId || l.Name != "code" {
+		if !isId || l.Name != pc {
 			return true
 		}
 		if sel, isSel := as.Rhs[0].(*ast.SelectorExpr); isSel && sel.Sel.Name == "End" {
-			if x, isX := sel.X.(*ast.Ident); isX && x.Name == "code" {
+			if x, isX := sel.X.(*ast.Ident); isX && x.Name == pc {
 				// `code = code.End` is legal for map ops whose End is OpMapEnd (has a handler); flag only in slice/array clauses
 				path := core.PathTo(sw, as)
 				for _, pn := range path {
@@ -1041,15 +1048,42 @@ func c01r6(rc *core.RC) {
 		return
 	}
 	sa, sb := ka[len(ka)-1], kb[len(kb)-1]
-	isPtrOnly := func(info *types.Info, st ast.Stmt) bool {
-		ifs, ok := st.(*ast.IfStmt)
-		if !ok {
-			return false
+	// the pointer flag, by role: the bool parameter of a router, or else its local of type bool defined as `false`
+	flagOf := func(fd *ast.FuncDecl, info *types.Info) string {
+		for _, f := range fd.Type.Params.List {
+			for _, nm := range f.Names {
+				if o := info.Defs[nm]; o != nil && o.Type().String() == "bool" {
+					return nm.Name
+				}
+			}
 		}
-		id, ok := core.Unparen(ifs.Cond).(*ast.Ident)
-		return ok && id.Name == "isPtr"
+		flag := "isPtr"
+		ast.Inspect(fd.Body, func(m ast.Node) bool {
+			as, ok := m.(*ast.AssignStmt)
+			if !ok || as.Tok != token.DEFINE || len(as.Lhs) != 1 || len(as.Rhs) != 1 {
+				return true
+			}
+			if v, isFalse := core.Unparen(as.Rhs[0]).(*ast.Ident); isFalse && v.Name == "false" {
+				if id, isID := as.Lhs[0].(*ast.Ident); isID {
+					flag = id.Name
+				}
+			}
+			return true
+		})
+		return flag
 	}
-	opt := core.NormOpts{Subst: map[string]string{"isPtr": "false"}, DropStmt: isPtrOnly}
+	optFor := func(fd *ast.FuncDecl, info *types.Info) core.NormOpts {
+		flag := flagOf(fd, info)
+		return core.NormOpts{Subst: map[string]string{flag: "false"}, DropStmt: func(info *types.Info, st ast.Stmt) bool {
+			ifs, ok := st.(*ast.IfStmt)
+			if !ok {
+				return false
+			}
+			id, ok := core.Unparen(ifs.Cond).(*ast.Ident)
+			return ok && id.Name == flag
+		}}
+	}
+	optA, optB := optFor(a, ia), optFor(b, ib)
 	n := 0
 	for _, k := range jsonKinds {
 		ca, cb := sa.clause[k], sb.clause[k]
@@ -1057,8 +1091,8 @@ func c01r6(rc *core.RC) {
 			continue
 		}
 		n++
-		na := core.NormalStmts(p.Fset, ia, ca.Body, opt)
-		nb := core.NormalStmts(p.Fset, ib, cb.Body, opt)
+		na := core.NormalStmts(p.Fset, ia, ca.Body, optA)
+		nb := core.NormalStmts(p.Fset, ib, cb.Body, optB)
 		key := "encoder.typeToCode~typeToCodeWithPtr/kind " + k
 		if i := core.FirstDiff(na, nb); i >= 0 {
 			da, db := "<end>", "<end>"
@@ -1210,6 +1244,10 @@ func c01r8(rc *core.RC) {
 		rc.Touch("encoder.(*" + strings.Replace(k.ctor, ".", ").", 1))
 		if reach(fd) {
 			rc.OK(key, fd.Pos(), "the %s constructor consults runtime.IfaceIndir", k.kind)
+		} else if boxed := p.Func("encoder", "isBoxedValue"); k.kind == "Array" && boxed != nil && reach(boxed) {
+			// since fix 97f301a the decision is taken for the whole code set: isBoxedValue consults IfaceIndir for an
+			// ArrayCode, and every place that starts a program consults the result (rule C08.R21)
+			rc.OK(key, boxed.Pos(), "isBoxedValue consults runtime.IfaceIndir for array programs; the starts of programs consult it (C08.R21)")
 		} else {
 			rc.Bad(key, fd.Pos(), "kind %s can be pointer-shaped (stored directly in an interface word) but its constructor never consults runtime.IfaceIndir, while the Struct constructor does: the interpreters take the interface's data word as the address of the array", k.kind)
 		}
